@@ -837,15 +837,15 @@ def mutate(env, ci, j, rng, legal):
         if kind in INT_RANGE_KINDS:
             return (int(x) + (1 << 64)) if rng.random() < 0.5 else "12x"
         if kind == "enum":
-            return rng.choice(["NO_SUCH_VALUE", 1 << 31, True])
+            return rng.choice(["NO_SUCH_VALUE", 1 << 31, [1]])
         if kind == "bytes":
             return 5
         if kind == "datetime":
             return rng.choice([x[:-1], x.replace("T", " "), "0000-01-01T00:00:00Z", 5])
         if kind == "timedelta":
-            return rng.choice([x[:-1], "s", "1.s", 3])
+            return rng.choice([x[:-1], "s", "1,5s", 3])
         if kind in ("float", "double"):
-            return rng.choice(["abc", "", True, [1.0]])
+            return rng.choice(["abc", "", [1.0], {"a": 1}])
         if kind == "bool":
             return rng.choice(["true", 1, 0])
         if kind == "string":
